@@ -4,7 +4,12 @@ namespace SpyneModel.Wsdl
 open SpyneModel
 
 /-- what `gen` returns when it returns -/
-theorem gen_ok (F : Facts07) (e : Enum) (I : IState) (url : String) (d : Doc) (h : gen F e I url = .ok d) :
+theorem messagesFor_perDocument (F : Facts07) (hM : F.messageDedup = .perDocument) (I : IState) :
+    messagesFor F I = messagesOf I := by
+  simp [messagesFor, hM]
+
+theorem gen_ok (F : Facts07) (hM : F.messageDedup = .perDocument) (e : Enum) (I : IState) (url : String) (d : Doc)
+    (h : gen F e I url = .ok d) :
     ∃ schemas tr, buildSchemas F e I = .ok (schemas, tr) ∧
       d = ⟨(touchAll (Prefs.init I) tr).nsmap,
            (touchAll (touchAll (Prefs.init I) tr)
@@ -12,6 +17,7 @@ theorem gen_ok (F : Facts07) (e : Enum) (I : IState) (url : String) (d : Doc) (h
            I.tns, I.name, schemas, (messagesOf I).1, (portTypesOf F I (stripWsdl url)).services,
            (portTypesOf F I (stripWsdl url)).portTypes, (bindingsOf F I).bindings⟩ := by
   unfold gen at h
+  rw [messagesFor_perDocument F hM] at h
   cases hb : buildSchemas F e I with
   | fault => rw [hb] at h; cases h
   | crash x => rw [hb] at h; cases h
@@ -24,11 +30,12 @@ theorem gen_ok (F : Facts07) (e : Enum) (I : IState) (url : String) (d : Doc) (h
 
 theorem wfOps_unpack (I : IState) (h : I.wfOps = true) :
     ((allMethods I).map (·.opName)).Nodup ∧ (∀ s ∈ I.services, svcOk s) ∧
-    (I.services.flatMap (·.portTypes)).Nodup ∧ I.name ∉ I.services.flatMap (·.portTypes) := by
+    (I.services.flatMap (·.portTypes)).Nodup ∧ I.name ∉ I.services.flatMap (·.portTypes) ∧
+    (I.services.map (·.name)).Nodup := by
   simp only [IState.wfOps, Bool.and_eq_true, decide_eq_true_eq, List.all_eq_true, Bool.not_eq_true',
     List.contains_eq_mem, decide_eq_false_iff_not] at h
-  obtain ⟨⟨⟨⟨h1, h2⟩, h3⟩, h4⟩, h5⟩ := h
-  refine ⟨h1, ?_, h4, h5⟩
+  obtain ⟨⟨⟨⟨⟨h1, h2⟩, h3⟩, hsn⟩, h4⟩, h5⟩ := h
+  refine ⟨h1, ?_, h4, h5, hsn⟩
   intro s hs
   refine ⟨h2 s hs, ?_⟩
   intro m hm
@@ -40,14 +47,14 @@ theorem wfOps_unpack (I : IState) (h : I.wfOps = true) :
 theorem cbInv_init (I : IState) : cbInv I ⟨[], false, []⟩ := by intro h; cases h
 
 /-- **every exposed method is exactly one portType operation with a matching binding operation** -/
-theorem ops_exactly_once_general (F : Facts07) (hF : F.opPortType = .own) (e : Enum) (I : IState) (url : String)
+theorem ops_exactly_once_general (F : Facts07) (hF : F.opPortType = .own) (hM : F.messageDedup = .perDocument) (e : Enum) (I : IState) (url : String)
     (d : Doc) (h : gen F e I url = .ok d) (hw : I.wfOps = true) (s : Svc) (hs : s ∈ I.services) (m : Meth)
     (hm : m ∈ s.methods) :
     opCount m.opName d.portTypes = 1 ∧ bopCount m.opName d.bindings = 1 ∧
     ∃ pt ∈ d.portTypes, ∃ b ∈ d.bindings, b.name = pt.name ∧ b.type = ⟨d.tns, pt.name⟩ ∧
       mkOp I m ∈ pt.ops ∧ mkBOp F I m ∈ b.ops := by
-  obtain ⟨schemas, tr, _, rfl⟩ := gen_ok F e I url d h
-  obtain ⟨hnd, hok, _, _⟩ := wfOps_unpack I hw
+  obtain ⟨schemas, tr, _, rfl⟩ := gen_ok F hM e I url d h
+  obtain ⟨hnd, hok, _, _, _⟩ := wfOps_unpack I hw
   have hall : m ∈ allMethods I := mem_allMethods I s hs m hm
   have hone : ((allMethods I).filter (fun m' => m'.opName == m.opName)).length = 1 :=
     filter_length_one_of_nodup (·.opName) (allMethods I) hnd m hall
@@ -130,11 +137,11 @@ theorem mem_mnames_any (ms : List Msg) (x : String) (h : x ∈ ms.map (·.name))
 
 /-- **message, portType and binding references resolve**: every `message=` of a portType operation or soap:header,
     every `type=` of a binding and every `binding=` of a port names a definition of the document -/
-theorem wsdl_refs_closed_general (F : Facts07) (hF : F.headerMsgNs = .tns) (e : Enum) (I : IState) (url : String)
+theorem wsdl_refs_closed_general (F : Facts07) (hF : F.headerMsgNs = .tns) (hM : F.messageDedup = .perDocument) (e : Enum) (I : IState) (url : String)
     (d : Doc) (h : gen F e I url = .ok d) (hwf : I.wf = true) :
     (∀ q ∈ d.msgRefs, d.msgDefined q = true) ∧ (∀ q ∈ d.portTypeRefs, d.portTypeDefined q = true) ∧
     (∀ q ∈ d.bindingRefs, d.bindingDefined q = true) := by
-  obtain ⟨schemas, tr, _, rfl⟩ := gen_ok F e I url d h
+  obtain ⟨schemas, tr, _, rfl⟩ := gen_ok F hM e I url d h
   have hw := wf_unpack I hwf
   obtain ⟨pf, hp1, hp2⟩ := tns_lookup I hw tr
     ((messagesOf I).2 ++ (portTypesOf F I (stripWsdl url)).trace ++ (bindingsOf F I).trace)
